@@ -75,8 +75,16 @@ def gen_plate(rng, used, profile) -> dict:
     if mn >= mx:
         mn = F(0)
     mode = rng.random()
+    wide = rng.random() < profile.get("p_wide", 0.0)
+    if wide:
+        # a strip with 100+ columns: well IDs of four characters ("A100" next to "A10")
+        rows, cols = rng.choice([1, 2]), rng.randint(100, 112)
     n = rows * cols
-    if mode < 0.25:
+    if wide:
+        filled = set(rng.sample(range(n), 6)) | {9, 10, min(n - 1, 99), min(n - 1, 108)}
+        v0 = grid(rng, mn, mx)
+        init = ("V", [v0 if i in filled else F(0) for i in range(n)])
+    elif mode < 0.25:
         init = None
     elif mode < 0.5:
         init = ("S", grid(rng, 0, mx))
@@ -149,9 +157,14 @@ class Builder:
         self.cfg0 = self.cfg             # configuration the worklist is created with (op `reconfigure` replaces self.cfg)
         self.reconfigured = False
         self.vol_memory = []             # transfer volumes used so far (re-used after a reconfiguration)
-        self.labs = [impl.make_lab(s) for s in self.specs]
-        self.wl = impl.make_wl(self.cfg)
         self.ops = []
+        try:
+            self.labs = [impl.make_lab(s) for s in self.specs]
+        except Exception:  # noqa: BLE001
+            # a labware the generator takes for constructible is refused by the code under test: the program consists
+            # of the declarations alone, and the correspondence check reports the refusal
+            self.labs = None
+        self.wl = impl.make_wl(self.cfg)
         self.failed = False
         # non-integer max_volume + auto_split: split steps v/k are not dyadic, tracked volumes carry
         # float noise; such programs are compared with a tolerance and never aim at exact limits
@@ -369,16 +382,31 @@ class Builder:
         vols = self.remove_volumes(li, wells, fail)
         return {"op": "remove", "lab": li, "wells": wells, "vols": self.shape_vols(wells, vols), "label": self.label()}
 
+    def per_well_tips(self, op):
+        """A tip collection with as many members as the operation has wells, as list / tuple / object array: a collection
+        is one selection (the OR of its members) for EVERY record, however its length compares with the well count."""
+        rng = self.rng
+        if op is None or rng.random() >= self.profile.get("p_tips_per_well", 0.0):
+            return
+        w = op.get("wells")
+        n = 1 if w[0] == "S" else len(w[1]) if w[0] == "V" else len(w[3])
+        if 1 <= n <= 8:
+            tips = rng.sample(range(1, 9), n)
+            op["kw"]["tip"] = ("many", [("int", t) if rng.random() < 0.5 else ("member", 2 ** (t - 1)) for t in tips],
+                               rng.choice(["array", "array", "tuple", "list"]))
+
     def op_aspirate(self, fail=False):
         op = self.op_remove(fail)
         op["op"] = "aspirate"
         op["kw"] = self.kw()
+        self.per_well_tips(op)
         return op
 
     def op_dispense(self, fail=False):
         op = self.op_add(fail)
         op["op"] = "dispense"
         op["kw"] = self.kw()
+        self.per_well_tips(op)
         return op
 
     def op_near_oversize(self):
@@ -753,6 +781,8 @@ class Builder:
 def gen_worklist_program(rng: random.Random, profile: dict) -> dict:
     """A mostly valid worklist program; with probability p_fail the last operation is built to fail."""
     b = Builder(rng, profile)
+    if b.labs is None:
+        return b.program()
     nops = rng.randint(*profile.get("nops", (1, 8)))
     kinds = profile.get("kinds", ["transfer"] * 4 + ["aspirate", "dispense", "distribute", "distribute", "misc", "add", "remove", "drain_refill"])
     for _ in range(nops):
@@ -810,6 +840,8 @@ def gen_labware_program(rng: random.Random, profile: dict) -> dict:
     """Direct add/remove histories on labware (no worklist records)."""
     prof = dict(profile)
     b = Builder(rng, prof)
+    if b.labs is None:
+        return b.program()
     nops = rng.randint(*profile.get("nops", (1, 12)))
     for _ in range(nops):
         fail = rng.random() < profile.get("p_fail_each", 0.15)
